@@ -56,7 +56,7 @@ def collect(ctx):
 
 
 def run_model(ctx, lines):
-    p = subprocess.run([vlib.MODEL, "c18"], input="\n".join(lines) + "\n", stdout=subprocess.PIPE,
+    p = vlib.srun([vlib.MODEL, "c18"], input="\n".join(lines) + "\n", stdout=subprocess.PIPE,
                        stderr=subprocess.PIPE, text=True, timeout=3000)
     res = {}
     for l in p.stdout.split("\n"):
